@@ -3,8 +3,8 @@
    time (syncs of one publisher are serialised -- Subscriber.tla; syncs of different publishers are not).  Each sync is a
    sequence of steps -- the fetch of a block from its publisher (F) and the block hook's call for a block (H):
 
-     unsegmented (seg = 0):   F n, F n-1, .. F 1, H n, H n-1, .. H 1      (the hooks run when the walk is over)
-     segments of 1 (seg = 1): F n, H n, F n-1, H n-1, .. F 1, H 1
+     unsegmented (seg = 0):   S, F n, F n-1, .. F 1, H n, H n-1, .. H 1      (S: the call is made; the hooks run when the walk is over)
+     segments of 1 (seg = 1): S, F n, H n, F n-1, H n-1, .. F 1, H 1
 
    and the two sequences interleave in every possible way.  What the hooks of a sync are called with is a function of that
    sync's own walk: the blocks of ITS chain, head first -- Independent.  The walk's order list belongs to the walk.
@@ -21,9 +21,11 @@ CONSTANTS N,        \* length of both chains
           BUG, EXPORT
 
 Procs == {"A", "B"}
-Steps(sg) == IF sg = 0
-             THEN [k \in 1..2 * N |-> IF k <= N THEN <<"F", N - k + 1>> ELSE <<"H", 2 * N - k + 1>>]
-             ELSE [k \in 1..2 * N |-> IF k % 2 = 1 THEN <<"F", N - (k + 1) \div 2 + 1>> ELSE <<"H", N - k \div 2 + 1>>]
+Walk(sg) == IF sg = 0
+            THEN [k \in 1..2 * N |-> IF k <= N THEN <<"F", N - k + 1>> ELSE <<"H", 2 * N - k + 1>>]
+            ELSE [k \in 1..2 * N |-> IF k % 2 = 1 THEN <<"F", N - (k + 1) \div 2 + 1>> ELSE <<"H", N - k \div 2 + 1>>]
+Steps(sg) == << <<"S", 0>> >> \o Walk(sg)        \* S: the caller starts the sync (the other may be anywhere in its own by then)
+NSteps == 2 * N + 1
 
 VARIABLES seg, pc, trav, buf, rep, order
 vars == <<seg, pc, trav, buf, rep, order>>
@@ -32,10 +34,12 @@ Init == /\ seg \in Segs /\ pc = [p \in Procs |-> 0] /\ trav = [p \in Procs |-> <
         /\ rep = [p \in Procs |-> <<>>] /\ order = <<>>
 
 Step(p) ==
-  /\ pc[p] < 2 * N
+  /\ pc[p] < NSteps
   /\ LET st == Steps(seg)[pc[p] + 1] IN
      /\ pc' = [pc EXCEPT ![p] = @ + 1] /\ order' = Append(order, p) /\ UNCHANGED seg
-     /\ IF st[1] = "F"
+     /\ IF st[1] = "S"
+        THEN UNCHANGED <<trav, buf, rep>>
+        ELSE IF st[1] = "F"
         THEN LET fresh == seg = 1 \/ st[2] = N IN          \* a walk (the whole chain, or one segment) starts with an empty order list
              /\ trav' = [trav EXCEPT ![p] = IF fresh THEN << <<p, st[2]>> >> ELSE Append(@, <<p, st[2]>>)]
              /\ buf' = IF BUG = "shared-buffer" THEN (IF fresh THEN << <<p, st[2]>> >> ELSE Append(buf, <<p, st[2]>>)) ELSE buf
@@ -51,7 +55,7 @@ Spec == Init /\ [][Next]_vars
 (* C01 for each of the two: its hooks see its own chain, head first, whatever the other sync does in between *)
 Independent == \A p \in Procs : \A i \in 1..Len(rep[p]) : rep[p][i] = <<p, N - i + 1>>
 
-Finished == \A p \in Procs : pc[p] = 2 * N
+Finished == \A p \in Procs : pc[p] = NSteps
 ExportBehaviour == (EXPORT /\ Finished) =>
    Emit("c01_pairs.ndjson", [seg |-> seg, n |-> N, order |-> order, rep |-> [p \in Procs |-> [i \in 1..Len(rep[p]) |-> rep[p][i][2]]]])
 =============================================================================
